@@ -424,9 +424,12 @@ class Check:
     # -- proofs
     def prove(self, extra_targets=()):
         """Translate, rebuild proofs of Props/<prop>.v, record obligations. Returns result dict."""
-        guards = translate()
-        self.note("translator_guards_failed", guards)
-        res = coq_props(self.prop, extra_targets=extra_targets)
+        # one session lock around regenerate + build: a concurrent check (another property, or the same
+        # checks pointed at a scratch tree through RB_REPO) must not swap coq/Gen between the two steps
+        with Lock("coq-session"):
+            guards = translate()
+            self.note("translator_guards_failed", guards)
+            res = coq_props(self.prop, extra_targets=extra_targets)
         self.cov["obligations"] = res["obligations"]
         self.cov["discharged"] = res["discharged"]
         self.cov["checker_cmd"] = "make -C coq Props/%s.vo (coqc 8.16.1, full .vo build; Print Assumptions under every theorem)" % self.prop
